@@ -73,6 +73,10 @@ pub trait Node: Flat {
     fn native_default_bytes() -> Option<Vec<u8>> {
         None
     }
+    /// does the real type implement `Portable` (by declaration)?
+    fn declared_portable() -> bool {
+        false
+    }
     /// (FlatSized::SIZE, size_of, align_of) for sized types
     fn sized_info() -> Option<(usize, usize, usize)> {
         None
@@ -181,6 +185,7 @@ macro_rules! prim_node {
     ($($t:ty => $u:ty),* $(,)?) => {$(
         impl Node for $t {
             fn desc() -> Desc { Desc::Prim { size: core::mem::size_of::<$t>(), align: core::mem::align_of::<$t>() } }
+            fn declared_portable() -> bool { core::mem::size_of::<$t>() == 1 }
             fn read(&self) -> Value { Value::Scalar(<$u>::from_ne_bytes(self.to_ne_bytes()) as u128) }
             unsafe fn emplace_value_unchecked<'a>(bytes: &'a mut [u8], v: &Value, _k: Kind) -> Result<&'a mut Self, Error> {
                 <$t as SizedNode>::from_value(v).emplace_unchecked(bytes)
@@ -204,6 +209,9 @@ prim_node!(u8 => u8, u16 => u16, u32 => u32, u64 => u64, u128 => u128, usize => 
 impl Node for () {
     fn desc() -> Desc {
         Desc::Unit
+    }
+    fn declared_portable() -> bool {
+        true
     }
     fn read(&self) -> Value {
         Value::Unit
@@ -233,6 +241,9 @@ impl SizedNode for () {
 impl Node for Bool {
     fn desc() -> Desc {
         Desc::Bool
+    }
+    fn declared_portable() -> bool {
+        true
     }
     fn read(&self) -> Value {
         Value::Scalar(bool::from(*self) as u128)
@@ -269,6 +280,7 @@ macro_rules! pscalar_node {
     ($($t:ty, $n:expr, $be:expr);* $(;)?) => {$(
         impl Node for $t {
             fn desc() -> Desc { Desc::PScalar { size: $n, be: $be } }
+            fn declared_portable() -> bool { true }
             fn read(&self) -> Value { Value::Scalar(refmodel::read_uint(&self.to_bytes(), $be)) }
             unsafe fn emplace_value_unchecked<'a>(bytes: &'a mut [u8], v: &Value, _k: Kind) -> Result<&'a mut Self, Error> {
                 <$t as SizedNode>::from_value(v).emplace_unchecked(bytes)
@@ -300,6 +312,9 @@ pscalar_node!(
 impl<T: SizedNode, const N: usize> Node for [T; N] {
     fn desc() -> Desc {
         Desc::Array(Box::new(T::desc()), N)
+    }
+    fn declared_portable() -> bool {
+        T::declared_portable()
     }
     fn read(&self) -> Value {
         Value::Array(self.iter().map(|x| x.read()).collect())
@@ -353,6 +368,9 @@ fn vec_items(v: &Value) -> &[Value] {
 impl<T: SizedNode, L: LenNode> Node for FlatVec<T, L> {
     fn desc() -> Desc {
         Desc::Vec { elem: Box::new(T::desc()), len: L::len_ty() }
+    }
+    fn declared_portable() -> bool {
+        T::declared_portable() && (L::len_ty().align == 1)
     }
     fn read(&self) -> Value {
         Value::Vec(self.as_slice().iter().map(|x| x.read()).collect())
@@ -458,6 +476,9 @@ impl<L: LenNode> Node for FlatString<L> {
     fn desc() -> Desc {
         Desc::Str { len: L::len_ty() }
     }
+    fn declared_portable() -> bool {
+        L::len_ty().align == 1
+    }
     fn read(&self) -> Value {
         Value::Str(self.as_str().as_bytes().to_vec())
     }
@@ -538,6 +559,9 @@ fn flex_items(v: &Value) -> &[Value] {
 impl<T: Node + ?Sized, L: LenNode> Node for FlexVec<T, L> {
     fn desc() -> Desc {
         Desc::Flex { item: Box::new(T::desc()), len: L::len_ty() }
+    }
+    fn declared_portable() -> bool {
+        T::declared_portable() && (L::len_ty().align == 1)
     }
     fn read(&self) -> Value {
         Value::Flex(self.iter().map(|x| x.read()).collect())
